@@ -1,1 +1,172 @@
-// harness for rs/anda_kip/src/parser.rs (mounted by #[cfg(kani)] hook)
+// @module parser::verif_kani
+// Kani harnesses for rs/anda_kip/src/parser.rs — property C15, the pre-parse budget guard
+// validate_parser_budget (length limit, bracket depth, strings, // comments): it must stay in lexical
+// lock-step with the real tokenizer for every arrangement of quotes, backslashes, slashes and newlines
+// around a bracket run, or the depth guard is defeated (the regression its own comment describes).
+// The guard only returns Ok/Err, so its lexer is observable only at the depth limit: every lock-step
+// harness carries a run of 64 openers.
+use super::*;
+include!("/verif/harness/common.rs");
+
+const ALPHABET: [u8; 9] = [b'"', b'/', b'\\', b'\n', b'a', b'(', b'[', b')', b']'];
+fn sym() -> u8 {
+    let i: u8 = kani::any();
+    kani::assume(i < 9);
+    ALPHABET[i as usize]
+}
+
+/// Reference lexer written from KIPSyntax.md: strings with backslash escapes, `//` to end of line,
+/// a closer pops only its own opener. Returns (in_string, in_comment, depth) after the segment,
+/// starting in code mode with `depth0` open '(' brackets.
+fn reference<const P: usize>(seg: &[u8; P], depth0: usize) -> (bool, bool, usize, [u8; P], usize) {
+    let (mut in_str, mut esc, mut in_c, mut prev_slash) = (false, false, false, false);
+    // openers pushed by the segment itself (the run below it is all '(')
+    let mut own = [0u8; P];
+    let mut n_own = 0usize;
+    let mut below = depth0;
+    let mut j = 0;
+    while j < P {
+        let c = seg[j];
+        j += 1;
+        if in_c {
+            if c == b'\n' {
+                in_c = false;
+            }
+            continue;
+        }
+        if in_str {
+            prev_slash = false;
+            if esc {
+                esc = false;
+                continue;
+            }
+            if c == b'\\' {
+                esc = true;
+            } else if c == b'"' {
+                in_str = false;
+            }
+            continue;
+        }
+        if c == b'/' {
+            if prev_slash {
+                in_c = true;
+                prev_slash = false;
+            } else {
+                prev_slash = true;
+            }
+            continue;
+        }
+        prev_slash = false;
+        if c == b'"' {
+            in_str = true;
+        } else if c == b'(' || c == b'[' {
+            own[n_own] = c;
+            n_own += 1;
+        } else if c == b')' {
+            if n_own > 0 {
+                if own[n_own - 1] == b'(' {
+                    n_own -= 1;
+                }
+            } else if below > 0 {
+                below -= 1;
+            }
+        } else if c == b']' {
+            if n_own > 0 && own[n_own - 1] == b'[' {
+                n_own -= 1;
+            }
+        }
+    }
+    (in_str, in_c, below + n_own, own, n_own)
+}
+
+/// 64 concrete '(' , then the symbolic segment, then one more '(' : Err iff after the segment the
+/// lexer is in code mode and still 64 deep. (The lexer state does not depend on the depth, so placing
+/// the segment after the run is as general as before it and keeps the first 64 iterations concrete;
+/// the reverse placement did not finish in 900 s.) Openers are not in this segment's alphabet: one
+/// more opener at depth 64 would return Err from inside the segment.
+fn lockstep_run_then_segment<const P: usize, const N: usize>() {
+    let mut bytes = [b'('; N];
+    let mut seg = [0u8; P];
+    let mut i = 0;
+    while i < P {
+        let c = sym();
+        kani::assume(c != b'(' && c != b'[');
+        seg[i] = c;
+        bytes[64 + i] = c;
+        i += 1;
+    }
+    let s = unsafe { std::str::from_utf8_unchecked(&bytes) };
+    let r = validate_parser_budget(s);
+    let (in_str, in_c, depth, _, _) = reference::<P>(&seg, 64);
+    let code = !in_str && !in_c;
+    assert!(r.is_err() == (code && depth == 64), "the 65th opener is refused exactly when the real lexical state is code and no closer of its own kind intervened");
+    kani::cover!(r.is_err(), "refused");
+    kani::cover!(r.is_ok() && in_str, "the opener sits inside a string");
+    kani::cover!(r.is_ok() && code && depth < 64, "a ')' closed one level first");
+    std::mem::forget(r);
+}
+
+// @check id=C15 tier=quick cap=900 mem=24 solo=1 role=lockstep_run_then_segment
+// @fns parser::validate_parser_budget
+// @bound 64 concrete '(' + every segment of 2 symbols over {" / \ newline a ) ]} + one more '(' (67 characters)
+// @stubs alloc::fmt::format -> String::new() (error messages only)
+// @assume ASCII input (multi-byte characters are neither brackets nor quotes)
+#[kani::proof]
+#[kani::unwind(70)]
+#[kani::stub(alloc::fmt::format, fmt_stub)]
+fn c15_budget_lockstep_run_then_segment2() {
+    lockstep_run_then_segment::<2, 67>();
+}
+
+// @check id=C15 tier=thorough cap=1500 mem=28 solo=1 role=lockstep_run_then_segment
+// @fns parser::validate_parser_budget
+// @bound as above with every segment of 3 symbols (68 characters): 473 s / 19 GB measured in the design probe
+// @stubs alloc::fmt::format -> String::new() (error messages only)
+#[kani::proof]
+#[kani::unwind(71)]
+#[kani::stub(alloc::fmt::format, fmt_stub)]
+fn c15_budget_lockstep_run_then_segment3() {
+    lockstep_run_then_segment::<3, 68>();
+}
+
+// never over-rejects at the limit: exactly 64 openers are allowed, whatever follows them closes or
+// is not a bracket. (A fully symbolic short input over an alphabet with openers ran out of 16 GB even
+// at 4 characters: every symbolic push forks the Vec growth path. The opener run is concrete here.)
+// @check id=C15 tier=quick cap=900 mem=24 solo=1 role=never_over_rejects_at_limit
+// @fns parser::validate_parser_budget
+// @bound 64 concrete '(' followed by every segment of 2 symbols over {" / \ newline a ) ]} (no further opener): never refused
+// @stubs alloc::fmt::format -> String::new() (error messages only)
+#[kani::proof]
+#[kani::unwind(69)]
+#[kani::stub(alloc::fmt::format, fmt_stub)]
+fn c15_budget_allows_exactly_the_limit() {
+    let mut bytes = [b'('; 66];
+    let (c0, c1) = (sym(), sym());
+    kani::assume(c0 != b'(' && c0 != b'[' && c1 != b'(' && c1 != b'[');
+    bytes[64] = c0;
+    bytes[65] = c1;
+    let s = unsafe { std::str::from_utf8_unchecked(&bytes) };
+    let r = validate_parser_budget(s);
+    assert!(r.is_ok(), "nesting of exactly MAX_KIP_NESTING_DEPTH is within the budget");
+    kani::cover!(c0 == b')' && c1 == b')', "two closers");
+    kani::cover!(c0 == b'"', "string opened at the limit");
+    std::mem::forget(r);
+}
+
+// the length limit: one comparison, reached with an over-long input of zero bytes (no loop entered)
+// @check id=C15 tier=quick cap=600 role=length_limit
+// @fns parser::validate_parser_budget
+// @bound inputs of length MAX_KIP_INPUT_LEN + 1 (refused before scanning) — concrete
+// @stubs alloc::fmt::format -> String::new() (error messages only)
+#[kani::proof]
+#[kani::unwind(3)]
+#[kani::stub(alloc::fmt::format, fmt_stub)]
+fn c15_budget_refuses_over_long_input_before_scanning() {
+    static BIG: [u8; MAX_KIP_INPUT_LEN + 1] = [0u8; MAX_KIP_INPUT_LEN + 1];
+    let s = unsafe { std::str::from_utf8_unchecked(&BIG) };
+    let r = validate_parser_budget(s);
+    assert!(r.is_err(), "an input longer than MAX_KIP_INPUT_LEN is refused");
+    kani::cover!(s.len() == MAX_KIP_INPUT_LEN + 1, "one byte over the limit");
+    kani::cover!(r.is_err(), "refused");
+    std::mem::forget(r);
+}
